@@ -121,4 +121,17 @@ def run(r: core.Runner):
     if [(n, r) for n, r in ast_table] != [(n, {k: list(v) for k, v in r.items()}) for n, r in digest.ENZYME_CLEAVAGE_RULES.items()]:
         r.violation("correspondence", {"suite": "gen_enzymes"}, found_input=False,
                     what="regenerated enzyme table (AST) disagrees with digest.ENZYME_CLEAVAGE_RULES at run time")
+    # name resolution: the rule the code digests with for enzyme NAME n is n's own entry of the table (the suites below take their rules
+    # from the table, so a name that resolves to another entry would be invisible to them)
+    for n, rule in ast_table:
+        try:
+            got = digest.get_cleavage_sites(n)
+            got = [list(got[0]), list(got[1]), list(got[2])]
+        except Exception as e:
+            got = f"{type(e).__name__}: {e}"[:100]
+        want = [list(rule["pre"]), list(rule["not_post"]), list(rule["post"])]
+        if got != want:
+            r.violation("property-failure", {"suite": "enzyme_name_resolution", "enzyme": n, "rule_used": got, "rule_of_the_table": want}, True,
+                        f"enzyme_name_resolution: get_cleavage_sites({n!r}) = {got}, the table entry of that name is {want}")
+            break
     r.run_suite(SUITES[0], max_report=3)
